@@ -137,6 +137,7 @@ type ConstDecl struct {
 	Val  uint64
 	Deps []string
 	Expr string // Go text of the initialiser
+	Doc  string
 }
 
 type Call struct {
@@ -279,6 +280,10 @@ func (e *Expr) Go() string {
 	panic("expr op " + e.Op)
 }
 
+// PrintComments controls whether comments, doc comments and logging calls are
+// printed (the baseline variant of a package is printed without them).
+var PrintComments = true
+
 func goStmts(sb *strings.Builder, ss []*Stmt, ind string) {
 	for _, s := range ss {
 		s.goStmt(sb, ind)
@@ -304,7 +309,13 @@ func (s *Stmt) simple() string {
 }
 
 func (s *Stmt) goStmt(sb *strings.Builder, ind string) {
-	if s.Comment != "" {
+	if s.Op == "log" {
+		if PrintComments {
+			fmt.Fprintf(sb, "%s%s\n", ind, s.Raw)
+		}
+		return
+	}
+	if s.Comment != "" && PrintComments {
 		for _, l := range strings.Split(s.Comment, "\n") {
 			fmt.Fprintf(sb, "%s// %s\n", ind, l)
 		}
@@ -390,7 +401,7 @@ func (s *Stmt) goStmt(sb *strings.Builder, ind string) {
 
 func (f *Func) Go() string {
 	var sb strings.Builder
-	if f.Doc != "" {
+	if f.Doc != "" && PrintComments {
 		for _, l := range strings.Split(f.Doc, "\n") {
 			fmt.Fprintf(&sb, "// %s\n", l)
 		}
@@ -421,7 +432,7 @@ func (f *Func) Go() string {
 
 func (s *StructDecl) Go() string {
 	var sb strings.Builder
-	if s.Doc != "" {
+	if s.Doc != "" && PrintComments {
 		for _, l := range strings.Split(s.Doc, "\n") {
 			fmt.Fprintf(&sb, "// %s\n", l)
 		}
@@ -435,7 +446,13 @@ func (s *StructDecl) Go() string {
 }
 
 func (c *ConstDecl) Go() string {
-	return fmt.Sprintf("const %s %s = %s\n", c.Name, c.T.Go(), c.Expr)
+	doc := ""
+	if c.Doc != "" && PrintComments {
+		for _, l := range strings.Split(c.Doc, "\n") {
+			doc += "// " + l + "\n"
+		}
+	}
+	return doc + fmt.Sprintf("const %s %s = %s\n", c.Name, c.T.Go(), c.Expr)
 }
 
 func (d Decl) Go() string {
@@ -502,11 +519,34 @@ func (p *Package) Shuffled(intn func(int) int) ([]string, [][]int) {
 	return names, order
 }
 
+func stmtsHaveLog(ss []*Stmt) bool {
+	for _, s := range ss {
+		if s.Op == "log" || stmtsHaveLog(s.Body) || stmtsHaveLog(s.Else) {
+			return true
+		}
+	}
+	return false
+}
+
+// HasLogs: some function contains a logging call.
+func (p *Package) HasLogs() bool {
+	for _, f := range p.Funcs() {
+		if stmtsHaveLog(f.Body) {
+			return true
+		}
+	}
+	return false
+}
+
 // GoFile prints everything into one file in declaration order.
 func (p *Package) GoFile() string {
 	idx := make([]int, len(p.Decls))
 	for i := range idx {
 		idx[i] = i
 	}
-	return p.GoFiles([]string{"p.go"}, [][]int{idx}, nil)["p.go"]
+	var imports []string
+	if PrintComments && p.HasLogs() {
+		imports = []string{"log"}
+	}
+	return p.GoFiles([]string{"p.go"}, [][]int{idx}, imports)["p.go"]
 }
